@@ -177,6 +177,154 @@ def session : Ui → List Step → Outcome Ui
   | ui, .redraw rows :: rest => session (draw ui rows) rest
   | ui, .redrawOn t rows :: rest => (drawOn t ui rows).bind fun ui' => session ui' rest
 
+/-! ### the search filter of `table::build_table`
+
+`build_table` refills `items` on every redraw from `state_vectors` (all aircraft known at that moment):
+an aircraft is listed when it was seen more than once, less than 30 s ago, and the search regex
+(`Regex::new(&search_query.to_lowercase().replace("-", ""))`, or the empty regex when that does not
+compile) matches its lower-cased callsign, address, typecode, registration without dashes, or the name of
+one of the receivers that saw it.  The regex engine is a parameter (`Matcher`): the theorems of Props/C17
+hold for ANY matcher; `litMatch` is what the regex crate does for a query without metacharacters
+(substring search), used by the driver. -/
+
+/-- the fields of `Snapshot` the filter reads -/
+structure Aircraft where
+  icao24 : List Char
+  callsign : Option (List Char) := none
+  typecode : Option (List Char) := none
+  registration : Option (List Char) := none
+  /-- `metadata[i].name` -/
+  names : List (Option (List Char)) := [none]
+  count : Nat := 2
+  lastseen : Nat := 0
+  deriving DecidableEq, Repr, Inhabited
+
+/-- `str::to_lowercase` on ASCII text -/
+def lower (s : List Char) : List Char := s.map Char.toLower
+/-- `.replace("-", "")` -/
+def dropDash (s : List Char) : List Char := s.filter (· != '-')
+/-- the pattern handed to `Regex::new` -/
+def normQuery (q : List Char) : List Char := dropDash (lower q)
+
+/-- `m pattern haystack` = `Regex::new(pattern).unwrap_or_else(|_| Regex::new("").unwrap()).is_match(haystack)` -/
+abbrev Matcher := List Char → List Char → Bool
+
+/-- `opt.as_ref().is_some_and(p)` -/
+def optAny (o : Option (List Char)) (p : List Char → Bool) : Bool :=
+  match o with
+  | some s => p s
+  | none => false
+
+/-- `(now as i64 - sv.cur.lastseen as i64) < 30` -/
+def fresh (now : Nat) (a : Aircraft) : Bool := decide ((now : Int) - (a.lastseen : Int) < 30)
+
+/-- the closure of `states.values().filter(..)` -/
+def listed (m : Matcher) (now : Nat) (query : List Char) (a : Aircraft) : Bool :=
+  let re := normQuery query
+  decide (a.count > 1) && fresh now a &&
+    (optAny a.callsign (fun s => m re (lower s))
+      || m re (lower a.icao24)
+      || optAny a.typecode (fun s => m re (lower s))
+      || optAny a.registration (fun s => m re (lower (dropDash s)))
+      || a.names.any (fun n => optAny n (fun s => m re (lower s))))
+
+/-- `filtered_states`, in the order of the map; `app.items` is its `icao24` column -/
+def displayed (m : Matcher) (now : Nat) (query : List Char) (fleet : List Aircraft) : List Aircraft :=
+  fleet.filter (listed m now query)
+
+/-- the rows handed to `Table::new`: `sorted_elts` (a permutation of `filtered_states`: `sort_by`, `reverse`)
+    filtered once more by the age test with the same `now` -/
+def tableRows (m : Matcher) (now : Nat) (query : List Char) (fleet : List Aircraft) : List Aircraft :=
+  (displayed m now query fleet).filter (fresh now)
+
+/-- substring search: `pat` occurs in `hay` -/
+def isInfixB (pat : List Char) : List Char → Bool
+  | [] => pat.isEmpty
+  | c :: t => pat.isPrefixOf (c :: t) || isInfixB pat t
+
+/-- the regex crate on a pattern without metacharacters -/
+def litMatch : Matcher := isInfixB
+
+/-- One pass of the loop body's `terminal.draw(|frame| table::build_table(frame, &mut app))` on a terminal of
+    size `t` at wall-clock second `now` when `state_vectors` holds `fleet`: `items` is refilled with the
+    aircraft the CURRENT query lists, then ratatui renders (`drawOn`). -/
+def redrawF (m : Matcher) (t : Term) (now : Nat) (fleet : List Aircraft) (ui : Ui) : Outcome Ui :=
+  drawOn t ui (displayed m now ui.query fleet).length
+
+/-- One iteration of the TUI loop of `main`:
+    `if let Ok(event) = events.next().await { update(..)? }; if app.should_quit { break }; terminal.draw(..)`.
+    Between two iterations the decoder tasks change `state_vectors` at will: every iteration carries its own
+    `fleet` (and clock, and terminal size). -/
+structure Iter where
+  ev : Option Event
+  t : Term
+  now : Nat
+  fleet : List Aircraft
+  deriving Repr, Inhabited
+
+/-- `if let Ok(event) = events.next().await { update(&mut app, event)? }` -/
+def stepEv (ui : Ui) : Option Event → Outcome Ui
+  | some e => update ui e
+  | none => .ok ui
+
+/-- the loop until the event source is exhausted or `should_quit` breaks it (before the redraw) -/
+def mainLoop (m : Matcher) : Ui → List Iter → Outcome Ui
+  | ui, [] => .ok ui
+  | ui, it :: rest =>
+    (stepEv ui it.ev).bind fun ui1 =>
+    if ui1.quit then .ok ui1
+    else (redrawF m it.t it.now it.fleet ui1).bind fun ui2 => mainLoop m ui2 rest
+
+/-! ### `tui.rs`: the task that turns crossterm events into `tui::Event`s
+
+`EventHandler::new` spawns a loop around `tokio::select!` over the crossterm event stream and a 250 ms
+interval.  `pump` is one turn of that loop: the new `width` cell and the events sent to the channel. -/
+
+/-- `crossterm::event::KeyEventKind` -/
+inductive KeyKind where
+  | press | repeat_ | release
+  deriving DecidableEq, Repr, Inhabited
+
+/-- `crossterm::event::MouseEventKind`, as far as `tui.rs` distinguishes -/
+inductive MouseKind where
+  | scrollUp | scrollDown | other
+  deriving DecidableEq, Repr, Inhabited
+
+/-- what one turn of the `select!` can observe -/
+inductive Input where
+  /-- `Some(Ok(Event::Key(key)))` -/
+  | key (k : Key) (kind : KeyKind)
+  /-- `Some(Ok(Event::Resize(col, _)))` -/
+  | resize (col : Nat) (rows : Nat)
+  /-- `Some(Ok(Event::Mouse(event)))` -/
+  | mouse (kind : MouseKind)
+  /-- `Some(Ok(_))`: focus gained / lost, paste -/
+  | otherEvent
+  /-- `Some(Err(_))` -/
+  | readError
+  /-- `None`: the stream ended -/
+  | streamEnd
+  /-- the interval fired -/
+  | tickDue
+  deriving DecidableEq, Repr, Inhabited
+
+/-- one turn: `(width', events sent)` -/
+def pump (width : Nat) : Input → Nat × List Event
+  | .key k kind => (width, if kind = .press then [.key k] else [])
+  | .resize col _ => (col, [])
+  | .mouse .scrollUp => (width, [.key (.char 'k')])
+  | .mouse .scrollDown => (width, [.key (.char 'j')])
+  | .mouse .other => (width, [])
+  | .otherEvent => (width, [])
+  | .readError => (width, [.error])
+  | .streamEnd => (width, [])
+  | .tickDue => (width, [.tick width])
+
+/-- the events a whole input history puts on the channel -/
+def pumpAll : Nat → List Input → List Event
+  | _, [] => []
+  | w, i :: rest => (pump w i).2 ++ pumpAll (pump w i).1 rest
+
 /-! ### Line protocol (driver) -/
 
 def SortKey.name : SortKey → String
@@ -218,10 +366,35 @@ def parseInit (tok : String) : Option Ui :=
     `build_table` reported), `Term<w>x<h>` (size of the terminal for the following redraws). -/
 inductive Tok where
   | ev (e : Event) | draw (k : Nat) | term (t : Term)
+  /-- `Fleet:<ac>;<ac>;…` — a redraw with these aircraft in `state_vectors`; the rows are computed by the
+      MODEL of the search filter (`displayed litMatch`) -/
+  | fleet (acs : List Aircraft)
   deriving Repr, Inhabited
 
+/-- the wall clock of the driver's `Fleet` steps (the hook sets `lastseen = now - age`) -/
+def driverNow : Nat := 1000000
+
+def parseOptText (s : String) : Option (List Char) := if s = "~" then none else some s.toList
+
+/-- `icao24/callsign/typecode/registration/name/count/age` -/
+def parseAircraft (s : String) : Option Aircraft :=
+  match s.splitOn "/" with
+  | [icao, cs, tc, reg, name, count, age] =>
+    count.toNat?.bind fun count =>
+    age.toInt?.bind fun age =>
+      if age.natAbs ≤ 100000 then
+        some { icao24 := icao.toList, callsign := parseOptText cs, typecode := parseOptText tc,
+               registration := parseOptText reg, names := [parseOptText name], count,
+               lastseen := ((driverNow : Int) - age).toNat }
+      else none
+  | _ => none
+
+def parseFleet (rest : String) : Option (List Aircraft) :=
+  ((rest.splitOn ";").filter (· ≠ "")).mapM parseAircraft
+
 def parseTok (tok : String) : Option Tok :=
-  if tok.startsWith "Draw" then
+  if tok.startsWith "Fleet:" then (parseFleet (tok.drop 6).toString).map Tok.fleet
+  else if tok.startsWith "Draw" then
     match (tok.drop 4).toString.splitOn ":" with
     | [m, k] => m.toNat?.bind fun _ => k.toNat?.map Tok.draw
     | _ => none
@@ -248,6 +421,13 @@ def traceToks (t : Term) : Ui → List Tok → List String
     | .err _ => ["err"]
     | .panic _ => ["panic"]
   | ui, .term t' :: rest => showUi ui :: traceToks t' ui rest
+  | ui, .fleet acs :: rest =>
+    match redrawF litMatch t driverNow acs ui with
+    | .ok ui' =>
+      let items := (displayed litMatch driverNow ui.query acs).map fun a => String.ofList a.icao24
+      s!"rows={items.length} items={",".intercalate items} {showUi ui'}" :: traceToks t ui' rest
+    | .err _ => ["err"]
+    | .panic _ => ["panic"]
 
 /-- states after each event, `panic` ends the trace -/
 def trace (guarded : Bool) : Ui → List Event → List String
